@@ -81,6 +81,10 @@ def synth_index(rng):
             e['spdx_license_key'] = rng.choice([w.upper() for w in words] + ['LicenseRef-a']) + rng.choice(['', '', '-only'])
         if rng.random() < 0.5:
             e['other_spdx_license_keys'] = [rng.choice(words) + '-alias' + rng.choice(['', '2']) for _ in range(rng.randint(0, 2))]
+            if rng.random() < 0.25:
+                # names with parentheses, glued to a word or not (one spelling per name: the two spellings of one name are the
+                # same words)
+                e['other_spdx_license_keys'].append(rng.choice(words) + rng.choice([' (v2)', '(x)', ' (3 clause)']))
             if e['other_spdx_license_keys'] and rng.random() < 0.4:
                 # the same alias again in another spelling, or a blank one: harmless within one entry
                 a0 = e['other_spdx_license_keys'][0]
